@@ -229,8 +229,9 @@ func c13Keywords(c *Ctx) {
 		return
 	}
 	c.Fn(FuncName(fn))
-	var accepted []string
+	acceptedSet := map[string]bool{}
 	n := 0
+	dom := stringTestDomains(fn)
 	for _, b := range fn.Blocks {
 		r, ok := b.Instrs[len(b.Instrs)-1].(*ssa.Return)
 		if !ok || len(r.Results) != 2 {
@@ -246,23 +247,26 @@ func c13Keywords(c *Ctx) {
 			c.Check(isErrorReturn(r), "keywords", "json.parseKeyword:reject", r.Pos(), "rejected with an error", "a keyword is rejected (nil node) without an error diagnostic")
 			continue
 		}
-		// accepted: which spelling guards it?
-		spelling := ""
-		for d := b; d != nil; d = d.Idom() {
-			idom := d.Idom()
-			if idom == nil {
-				break
-			}
-			if iff, ok := idom.Instrs[len(idom.Instrs)-1].(*ssa.If); ok && idom.Succs[0] == d {
-				if s, ok := stringEqConst(iff.Cond); ok {
-					spelling = s
-					break
-				}
+		// accepted: the spellings the keyword can have where this node is returned
+		d := dom[b]
+		var sp []string
+		for k := range d {
+			sp = append(sp, k)
+			acceptedSet[k] = true
+		}
+		sort.Strings(sp)
+		okSp := len(sp) > 0
+		for _, k := range sp {
+			if k != "true" && k != "false" && k != "null" {
+				okSp = false
 			}
 		}
-		accepted = append(accepted, spelling)
-		c.Check(spelling == "true" || spelling == "false" || spelling == "null", "keywords", "json.parseKeyword:accept["+spelling+"]", r.Pos(), "a JSON keyword",
-			"parseKeyword returns a node for the spelling `"+spelling+"`, which is not a JSON keyword")
+		c.Check(okSp, "keywords", "json.parseKeyword:accept["+strings.Join(sp, "|")+"]", r.Pos(), "a JSON keyword",
+			"parseKeyword returns a node for the spelling(s) `"+strings.Join(sp, "|")+"` (empty: any spelling), which is not a JSON keyword")
+	}
+	var accepted []string
+	for k := range acceptedSet {
+		accepted = append(accepted, k)
 	}
 	sort.Strings(accepted)
 	c.Check(strings.Join(accepted, ",") == "false,null,true", "keywords", "json.parseKeyword:set", fn.Pos(), "accepted set = {true,false,null}",
